@@ -95,9 +95,9 @@ func c19Conc(ctx *core.Ctx, res *core.Result) {
 				c19Violation(res, ev, sig, msg)
 				mu.Unlock()
 			}
-			if !waitFile(filepath.Join(ctrl, "paused"), 20*time.Second) {
+			if !waitFile(filepath.Join(ctrl, "paused"), 120*time.Second) {
 				// the run ended before step k (fewer steps on this path)
-				waitExit(first, 30*time.Second)
+				waitExit(first, 180*time.Second)
 				return
 			}
 			// did the first already execute 'flock -n 9'?
@@ -111,7 +111,7 @@ func c19Conc(ctx *core.Ctx, res *core.Result) {
 			}
 			second := box.run(0, "second")
 			os.WriteFile(filepath.Join(ctrl, "resume"), []byte("go"), 0644)
-			exit1, to := waitExit(first, 60*time.Second)
+			exit1, to := waitExit(first, 180*time.Second)
 			mu.Lock()
 			res.Evaluations++
 			res.Nontrivial++
